@@ -42,26 +42,10 @@ class Hub:
         # helpers located by what they are used for, not by name (a private fn may be renamed):
         #   staging-name helper = the crate-local fn whose result is the path of the content creator in handle_put
         #   current-hash helper = the crate-local fn whose result is the first argument of cas_decide
-        self.tmp_of = TMP_OF if F.body(TMP_OF) is not None else None
-        self.current_hash = 'serve::current_hash' if F.body('serve::current_hash') is not None else None
-        cand_t, cand_c = set(), set()
-        for gp in sorted(self.graph):
-            gb = F.body(gp)
-            if gb is None or not gb.file.endswith('bin/copia/serve.rs'):
-                continue
-            gfl = flow_of(gb)
-            for cb_, ct_ in gfl.calls(lambda c: c in tables.CONTENT_CREATORS and not c.endswith('OpenOptions::open')):
-                for o in gfl.origins(ct_['args'][tables.CONTENT_CREATORS[callee(ct_)]]):
-                    if o.kind == 'call' and F.body(o.key) is not None and o.key != SAFE_JOIN:
-                        cand_t.add(o.key)
-            for cb_, ct_ in gfl.calls_to('wire::cas_decide'):
-                for o in gfl.origins(ct_['args'][0]):
-                    if o.kind == 'call' and F.body(o.key) is not None:
-                        cand_c.add(o.key)
-        if len(cand_t) == 1:
-            self.tmp_of = list(cand_t)[0]
-        if len(cand_c) == 1:
-            self.current_hash = list(cand_c)[0]
+        import semantic_anchors
+        t_, c_ = semantic_anchors.hub_helpers(F)
+        self.tmp_of = t_ or (TMP_OF if F.body(TMP_OF) is not None else None)
+        self.current_hash = c_ or ('serve::current_hash' if F.body('serve::current_hash') is not None else None)
         self.ip = _flow.Interproc(F, opaque={SAFE_JOIN, self.tmp_of, 'wire::read_frame', self.current_hash, 'meta::fingerprint_path',
                                               'meta::discover_local_fingerprints', 'transfer::discover_local_files'})
         # for labelling every crate-local call stays visible (judged from its body by helper_return_label: summaries by
